@@ -181,6 +181,7 @@ theorem sim_step (fns : List FnDecl) (s : St) (w : Watch) (op : Op) (hop : opOk 
   | suspend t => exact sim_suspend fns s w t h
   | complete t o => exact sim_complete fns s w t o h
   | threadEnd th => exact ⟨w, by simp [watchStep, observe, step], by simpa [observe, step] using h⟩
+  | outside n => exact ⟨w, by simp [watchStep, observe, step], by simpa [observe, step] using h⟩
 
 theorem watchRun_ok (fns : List FnDecl) (ops : List Op) (hs : histOk fns ops = true) (s : St) (w : Watch)
     (h : Rel fns s w) :
